@@ -1386,7 +1386,19 @@ impl TheRing<'_> {
 
         // TODO: the above fails to handle the fact that PlainSessionKey::Unknown will not compare correctly
 
-        let is_consistent = is_sks_consistent && is_skesk_consistent && is_pkesk_consistent;
+        // The session keys found through the different kinds of secrets must agree as well.
+        let mut found = pkesk_session_key
+            .iter()
+            .map(|(_, key)| key)
+            .chain(skesk_session_key.iter().map(|(_, key)| key))
+            .chain(sks_session_key.iter());
+        let is_cross_consistent = match found.next() {
+            Some(first) => found.all(|key| key == first),
+            None => true,
+        };
+
+        let is_consistent =
+            is_sks_consistent && is_skesk_consistent && is_pkesk_consistent && is_cross_consistent;
 
         if !is_consistent {
             bail!("inconsistent session keys detected");
